@@ -8,12 +8,13 @@ Bounded (real server, harness/e2e_search.py): every supported key and its negati
 against an independent evaluator on crafted messages; UID SEARCH vs SEARCH; equivalent programs; hidden expunges.
 """
 from pyvc.prop import Property, Bounded
-from . import search as S
+from . import search as S, session as SES
 from harness.e2e_search import bounded_search
 
 PROPERTY = Property(
     'C13', 'SEARCH returns exactly the matching messages',
-    contracts=S.CONTRACTS, registry=S.REG,
+    contracts=S.CONTRACTS + [c for c in SES.make('C01') if c.qualname.endswith('search_mailbox')],
+    registry=dict(list(SES.REG.items()) + list(S.REG.items())),
     bounded=[Bounded('SEARCH programs vs. an independent RFC 3501 evaluator (real server)',
                      '7 crafted messages (flags, sizes, internal and sent dates incl. two within a zone offset of midnight, '
                      'From/To/Cc/Bcc/Subject/X-Test, bodies) and 6 (thorough 80) seeded randomly generated mailboxes of 3-8 '
